@@ -1,7 +1,7 @@
 """C27 / C28 / C29: byte-level codecs.  Codec.tla enumerates the structured input space with the predicted layout;
 every case is concretised, run through the real functions (harness binary mv_codec) and compared."""
 PROPS = ["C27", "C28", "C29"]
-READY = False
+READY = True
 CLAIMS = {
  "C27": dict(technique="TLA+ model of NewNumpyDataset / NumpyMultiDataset.Append bookkeeping (StartIndex, Lengths, column byte segments) and of both decoders, round trip checked by TLC as invariant over all datasets in bounds; every TLC state replayed into the real conversion + msgpack (plain and through the real RPC server/client codecs) + ToColumnSeriesMap",
              text="TLC enumerates all datasets of <=3 buckets x <=3 columns over the 11 wire types x lengths {0,1,2} (plus buckets whose column types differ from the dataset's) and checks Decode(Encode(x)) = x on the implementation-shaped model (Append advancing StartIndex, byte ranges start*size..(start+len)*size per column, both ToColumnSeriesMap variants). Each state is concretised (boundary and seeded values per type, seeded names and keys) and executed: ColumnSeries -> NewNumpyDataset/NewNumpyMultiDataset/Append -> msgpack.Marshal/Unmarshal and EncodeClientRequest -> rpc server codec -> service -> response -> DecodeClientResponse -> numpy.go ToColumnSeriesMap / query.go ToColumnSeriesMap; buckets, names, order, Go slice types and value bytes are compared with the input, and StartIndex/Lengths/column byte counts with the model.",
@@ -334,8 +334,8 @@ def run_c27(res, tier, rng, binary):
     v = Verdicts(res, "C27")
     inv = ["C27_RoundTrip", "C27_StartIndex", "C27_DevExplains", "Emit27"]
     if tier == "quick":
-        sub3 = sorted(rng.sample(WIRE, 4))
-        subm = sorted(set(rng.sample(WIRE, 4)) | {"FLOAT32", "INT32"})
+        sub3 = sorted(rng.sample(WIRE, 3))
+        subm = sorted(set(rng.sample(WIRE, 3)) | {rng.choice(["FLOAT32", "INT32"])})     # at least one same-width pair is likely
         runs = [("Codec_c27_a.cfg", dict(Types=WIRE, MaxCols=2, MaxBuckets=3)),
                 ("Codec_c27_b.cfg", dict(Types=sub3, MaxCols=3, MaxBuckets=3)),
                 ("Codec_c27_m.cfg", dict(Types=subm, MaxCols=2, MaxBuckets=2, Mismatch=True))]
